@@ -899,3 +899,31 @@ where
 
     recurse(v, &is_less, None, limit, canceled)
 }
+
+/// Verification facade over the private building blocks of the sort:
+/// 0 insertion_sort, 1 partial_insertion_sort, 2 heapsort, 3 partition (arg = pivot index),
+/// 4 partition_equal (arg = pivot index), 5 break_patterns, 6 choose_pivot.
+#[cfg(nucleo_verif)]
+pub(crate) fn verif_component<T, F>(which: u8, v: &mut [T], arg: usize, is_less: &F) -> (usize, bool)
+where
+    F: Fn(&T, &T) -> bool,
+{
+    match which {
+        0 => {
+            insertion_sort(v, is_less);
+            (0, false)
+        }
+        1 => (0, partial_insertion_sort(v, is_less)),
+        2 => {
+            heapsort(v, is_less);
+            (0, false)
+        }
+        3 => partition(v, arg, is_less),
+        4 => (partition_equal(v, arg, is_less), false),
+        5 => {
+            break_patterns(v);
+            (0, false)
+        }
+        _ => choose_pivot(v, is_less),
+    }
+}
